@@ -511,8 +511,20 @@ pub fn agent_run_executable(ctx: &mut Ctx, w: &World, junos: Junos) -> (RunObs, 
         }
     })();
     let mut g = shared.lock().unwrap();
-    let junos = std::mem::take(&mut *g);
+    let mut junos = std::mem::take(&mut *g);
     drop(g);
+    // the child process has its own hash seeds, so the order in which it loaded the policies - and with
+    // it the order of the statements in the instance and of the route-filters in a term - is not a function
+    // of the tape: put them in order, or the bytes of later replies (and what a fault cuts out of them) would differ
+    // between two executions of the same run
+    if let Some(db) = junos.instances.get_mut(&w.instance) {
+        db.sort_by(|a, b| a.0.cmp(&b.0));
+        for (_, policy) in db.iter_mut() {
+            for term in &mut policy.terms {
+                term.filters.sort();
+            }
+        }
+    }
     let after = junos.instances.get(&w.instance).cloned().unwrap_or_default();
     let sessions: Vec<Vec<ReqLog>> = junos.sessions[first_session..].iter().map(|s| s.log.clone()).collect();
     let opened = junos.sessions[first_session..]
